@@ -22,7 +22,7 @@ void harness(void) {
     body[NB] = 0;
     for(i = 0; i < NB; i++) { if(body[i] == 0) break; ASSUME(alpha(body[i])); blen++; }
     for(i = 0; i < NB; i++) if(i > blen) ASSUME(body[i] == 0);
-    ASSUME(d1 >= 1 && d1 <= 9 && d2 <= 10);   /* d2 == 10: one-digit id */
+    ASSUME(d1 <= 9 && d2 <= 10 && (d1 >= 1 || (d2 >= 1 && d2 <= 9)));   /* d2 == 10: one-digit id; d1 == 0: leading zero ("#07" is instance 7: ids are decimal) */
 #ifdef SEEK_ONLY
     id = 0;   /* the stream starts at the opening parenthesis */
 #else
